@@ -261,6 +261,16 @@ def atOffset (evalTime : Int) (ts : Option Int) (origOff : Int) (subqOff : Int) 
       | none => subqOff
     origOff + ((evalTime - ts) - subqOff)
 
+/-- Which `rangeEvalTimestampFunctionOverVectorSelector` /repo has: `false` = the code as found (finding
+    C28-F1: `vs.Offset = enh.Ts - *vs.Timestamp`, the original offset is dropped), `true` = fixes/C28-F1.patch
+    applied (`vs.Offset = vs.OriginalOffset + (enh.Ts - *vs.Timestamp)`). -/
+def repoFixedTsAtOffset : Bool := false
+
+/-- The reference time (`enh.Ts - vs.Offset`) at which `timestamp(m @ a offset o)` looks the sample up. -/
+def tsAtRefG (fixed : Bool) (a off : Int) : Int := if fixed then a - off else a
+
+def tsAtRef : Int → Int → Int := tsAtRefG repoFixedTsAtOffset
+
 /-- `getTimeRangesForSelector` for a plain selector (no anchored/smoothed):
     `sq` = enclosing subquery (offset, range, @) if any; `evalRange = 0` for an instant selector. -/
 def selectRange (qStart qEnd lookback : Int) (sq : Option (Int × Int × Option Int))
